@@ -2,6 +2,7 @@ package main
 
 import (
 	"bytes"
+	"context"
 	"encoding/json"
 	"flag"
 	"fmt"
@@ -167,6 +168,7 @@ type restDriver struct {
 	mu       sync.Mutex
 	events   []restEvent
 	deadline time.Duration
+	long     map[string]bool // reproduction: the exchanges under examination get the long deadline, the others 3 s
 	rng      *rand.Rand
 	suites   []string
 }
@@ -250,6 +252,11 @@ func (d *restDriver) send(c *client, scn, method, path, query, cls string, probe
 	}
 	if method == "POST" {
 		req.Header.Set("Content-Type", "application/json")
+	}
+	if d.long != nil && !d.long[scn] {
+		cx, cancel := context.WithTimeout(context.Background(), 3*time.Second)
+		defer cancel()
+		req = req.WithContext(cx)
 	}
 	t0 := time.Now()
 	ev.T0 = W64(uint64(t0.Unix()))
@@ -363,11 +370,19 @@ func cmdRest(args []string) {
 	server := fs.String("server", "", "server binary")
 	only := fs.String("only", "", "only these scenario keys (\\x1f separated)")
 	per := fs.Int("per-shard", 400, "events per trace file")
+	deadline := fs.Duration("deadline", 3*time.Second, "deadline per exchange")
 	fs.Parse(args)
 	d, err := startServer(*server)
 	if err != nil {
 		fmt.Fprintln(os.Stderr, "cannot start server:", err)
 		os.Exit(3)
+	}
+	d.deadline = *deadline
+	if *only != "" && *deadline > 3*time.Second {
+		d.long = map[string]bool{}
+		for _, k := range strings.Split(*only, "\x1f") {
+			d.long[k] = true
+		}
 	}
 	defer d.stop()
 	d.rng = rand.New(rand.NewSource(*seed))
